@@ -73,6 +73,7 @@ class World(object):
         if not self.daemon.started():
             raise RuntimeError("daemon did not start: " + self.daemon.stderr_text()[-400:])
         self.clients = []
+        self.outstanding = {}
         for step in setup:
             self.apply_setup(step)
         self.sync()
@@ -88,7 +89,8 @@ class World(object):
         elif k == "match":
             self.clients[step[1]].bus_call(b"AddMatch", b"s", [step[2]])
         elif k == "call":      # outstanding call from a to the owner of name (never answered)
-            self.clients[step[1]].call_async(step[2], b"/o", b"com.example.I", b"Pending", b"", [])
+            ser = self.clients[step[1]].call_async(step[2], b"/o", b"com.example.I", b"Pending", b"", [])
+            self.outstanding[(step[1], step[2])] = ser
 
     def sync(self, rounds=2):
         # two rounds: traffic one client caused for another during round one is flushed by round two
@@ -180,9 +182,15 @@ def do_op(w, op, k, nfail=1, second=-1):
                               serial=serial)
         elif kind == "broadcast":
             s, data = c.build(4, path=b"/o", iface=b"com.example.I", member=b"Sig", sig=b"s", body=[b"payload"], serial=serial)
+        elif kind == "reply":
+            # the callee answers the outstanding call of the setup: routing the reply consumes the pending-reply entry
+            caller = w.clients[op[2]]
+            rs = w.outstanding[(op[2], b":1.%d" % op[1])]
+            s, data = c.build(2, reply_serial=rs, dest=caller.unique, sig=b"s", body=[b"answer"], serial=serial)
         else:
             raise ValueError(kind)
     c.send_msg(data, serial)
+    probe_after = kind in ("addmatch", "removematch")
     # the caller: barrier, then collect everything that answers `serial`
     replies = []
     caller_other = []
@@ -205,6 +213,8 @@ def do_op(w, op, k, nfail=1, second=-1):
         except client.Closed:
             pass
         seen[i] = sorted(summarize(r) for r in o.take_inbox() if not is_harness_traffic(r))
+    if probe_after:
+        seen["rule-probes"] = rule_probes(w, op[1])
     if newc is not None:
         seen["new"] = sorted(summarize(r) for r in caller_other if not is_harness_traffic(r))
         # unique names are never reused: a second newcomer says Hello while the first one - whatever its Hello
@@ -259,6 +269,35 @@ def do_op(w, op, k, nfail=1, second=-1):
     return replies, seen, w.result(), newc
 
 
+PROBES = [dict(iface=b"com.example.I", member=b"Sig", path=b"/o", sig=b"s", body=[b"payload"]),
+          dict(iface=b"a.b", member=b"X", path=b"/a/b", sig=b"sssi", body=[b"0", b"1", b"2", 3]),
+          dict(iface=b"com.example.Other", member=b"X", path=b"/a", sig=b"s", body=[b"/a/x"]),
+          dict(iface=b"a.b", member=b"Y", path=b"/q", sig=b"ssss", body=[b"0", b"1", b"2", b"z"])]
+
+
+def rule_probes(w, ci):
+    """What the match rules in force do: another connection broadcasts a fixed set of signals (fault off), every client's
+    deliveries are recorded.  Rules are opaque in the state dump (only their number is there), so a rule filed in the
+    wrong place or half removed shows only here."""
+    if len(w.clients) < 2:
+        return []
+    sender = w.clients[(ci + 1) % len(w.clients)]
+    for kw in PROBES:
+        _, d = sender.build(4, **kw)
+        sender.send_msg(d)
+    out = []
+    for _ in range(2):
+        for o in w.clients:
+            try:
+                o.barrier()
+            except client.Closed:
+                pass
+    for i, o in enumerate(w.clients):
+        got = sorted(summarize(r) for r in o.take_inbox() if not is_harness_traffic(r))
+        out.append((i, got))
+    return out
+
+
 def reply_class(replies):
     if not replies:
         return ("none",)
@@ -287,6 +326,12 @@ FORCED = [
     ([("connect",)] * 3 + [("request", 0, A, 5), ("request", 1, A, 0), ("request", 2, A, 0)], ("request", 2, A, 2)),
     ([("connect",)] * 4 + [("request", 0, A, 5), ("request", 1, A, 0), ("request", 3, A, 1), ("request", 0, B, 0)], ("request", 2, A, 6)),
     ([("connect",)] * 3 + [("request", 0, A, 4), ("request", 1, B, 1), ("request", 0, B, 0)], ("request", 2, B, 3)),
+    ([("connect",)] * 3 + [("call", 0, b":1.1")], ("reply", 1, 0)),
+    ([("connect",)] * 2 + [("call", 0, b":1.0")], ("reply", 0, 0)),
+    ([("connect",)] * 3 + [("match", 1, b"type='signal'")], ("addmatch", 0, b"type='signal',interface='a.b'")),
+    ([("connect",)] * 3 + [("match", 0, b"type='signal',interface='a.b',member='X'")], ("removematch", 0, b"type='signal',interface='a.b',member='X'")),
+    ([("connect",)] * 3, ("addmatch", 2, b"interface='com.example.Other',arg0path='/a/'")),
+    ([("connect",)] * 3 + [EAVES], ("addmatch", 0, b"type='signal',interface='com.example.I',arg0='payload'")),
 ]
 
 
@@ -314,15 +359,21 @@ def gen_case(rng, forced=None):
                            b"path_namespace='/o'", b"eavesdrop='true'", b"type='signal',sender='org.freedesktop.DBus'"])
         setup.append(("match", ci, text))
         rules.append((ci, text))
+    pend = None
     if rng.random() < 0.3:
-        setup.append(("call", rng.randrange(ncl), b":1.%d" % rng.randrange(ncl)))
+        pend = (rng.randrange(ncl), rng.randrange(ncl))
+        setup.append(("call", pend[0], b":1.%d" % pend[1]))
     kind = rng.choice(["hello", "request", "request", "request", "release", "addmatch", "removematch", "call", "usignal", "broadcast"])
     if rng.random() < (1.0 if os.environ.get("VERIF_C14_FORCE_POLICY") else 0.12):
         # Hello on a bus whose policy has per-group and per-user sections
         setup.insert(0, ("policy",))
         kind = "hello"
     ci = rng.randrange(ncl)
-    if kind == "hello":
+    if pend is not None and rng.random() < 0.5:
+        kind = "reply"
+    if kind == "reply":
+        op = ("reply", pend[1], pend[0])
+    elif kind == "hello":
         op = ("hello",)
     elif kind == "request":
         op = ("request", ci, rng.choice(NAMES), rng.randint(0, 7))
@@ -387,6 +438,9 @@ def run_case(b, rundir, rng, part, cid, max_k=None, pair_limit=0, forced=None):
     try:
         pre = w.state()
         ocls = op_class(setup, op, pre)
+        pre_probes = rule_probes(w, op[1]) if op[0] in ("addmatch", "removematch") else None
+        if pre_probes is not None:
+            part.count("rule-probe-rounds")
         replies, seen, res, newc = do_op(w, op, 1 << 30)
         post = w.state()
         ref = (reply_class(replies), seen, post)
@@ -471,6 +525,9 @@ def run_case(b, rundir, rng, part, cid, max_k=None, pair_limit=0, forced=None):
                 dirty = dirty or (post_k != pre)
                 continue
             state_same = (post_k == pre) or (op[0] == "hello" and _same_but_incomplete(post_k, pre))
+            probes_k = seen.pop("rule-probes", None)
+            if probes_k is not None and probes_k != pre_probes:
+                state_same = False      # the rules in force behave differently than before the failed request
             others_quiet = all(not v for kk, v in seen.items())   # (no policy probes are sent after a failed Hello)
             one_nomem = (rc == (("error", NOMEM),))
             if state_same and others_quiet and one_nomem:
